@@ -78,11 +78,30 @@ def run(rep, tier, rng):
             for (ql, qbuf, _) in qs:
                 cases.append(C.read_case(req, pbuf, qbuf, [("it", -1), ("nth", 0)]))
                 meta.append((wl, exp, committed, pl, ql, pfl, True))
+    # an index length field that crosses a byte boundary between two finalizes (51 -> 52 entries: 0x00FE -> 0x0102
+    # words): torn, it announces more entries than the file holds; every byte cut of the last .shx header rewrite
+    # against the complete .shp
+    pts52 = [shapes.gen_ctor(rng, 1, "small") for _ in range(52)]
+    big = {"code": 1, "specs": pts52, "calls": [("w", i) for i in range(51)] + [("f",), ("w", 51)]}
+    P.run_ctor_stage(rep, dev, [big], "c11big")
+    P.run_write_stage(rep, dev, [big], "c11big")
+    bw = big["written"]
+    if "special" not in bw:
+        bexp = [P.on_read(v) for v in big["values"]]
+        bcommitted = shapes_before_flush(bw["shp"]["log"], big["calls"])
+        qlog = bw["shx"]["log"]
+        last_seek0 = max(i for i, o in enumerate(qlog) if o[0] == "s" and o[1] == 0)
+        for (ql, qbuf, _) in cuts_of(qlog, 0):
+            opi = int(ql[2:].split("+")[0])
+            if opi >= last_seek0:
+                cases.append(C.read_case(-1, bw["shp"]["buf"], qbuf, [("it", -1), ("nth", 0)]))
+                meta.append((big, bexp, bcommitted, "complete", ql, 0, True))
     rep.cov["rule"] = ("%d workloads (%d types x {w w f w, w f w w f, f w w}, shapes with NaN/inf/special values): the real "
                        "operation traces of both destinations (equal to the model's: compared) are cut at EVERY operation "
                        "boundary and at every byte inside the writes of the first operations and of every header rewrite; the "
                        "real reader is run on the persisted bytes without index and with the .shx cut at the same progress, "
-                       "complete, and at other prefixes; all compared with the model; oracle: no panic; the Ok items before "
+                       "complete, and at other prefixes; plus a 52-point workload whose index length field crosses a byte boundary "
+                       "between two finalizes, cut at every byte of the last .shx header rewrite; all compared with the model; oracle: no panic; the Ok items before "
                        "the first error form a prefix of the written shapes; everything written before a completed finalize "
                        "(flush) of the .shp is returned by sequential reading without index; non-trivial = distinct case"
                        % (len(workloads), len(codes)))
@@ -92,7 +111,7 @@ def run(rep, tier, rng):
         rep.dist("with_index" if with_idx else "no_index")
         rep.dist("byte_cut" if "+" in pl else "op_cut")
         msg = None
-        if r in ([2], [-2]):
+        if r in ([2], [-2], [-5]):
             msg = "panic or dead process on a crash state"
         else:
             ops = [("it", -1), ("nth", 0)] if with_idx else [("it", -1)]
